@@ -51,6 +51,8 @@ META_EXTRA = "SRC (copying an inplace_function never relocates its const source)
 META = (META[0] + " " + META_EXTRA, META[1])
 META = (META[0] + " SIB; INITFORM (make_from_tuple); LIFE / L5 over inplace_function's members.", META[1])
 
+META = (META[0] + ' FWDMOVE (a forwarding-reference parameter is forwarded, never moved; forward_like is the one named exception).', META[1])
+
 
 def run(chk, tier):
     db = D.load("checks")
@@ -59,6 +61,9 @@ def run(chk, tier):
     from ..rules import sibs as _SB
     _SB.check(chk, db, ['_functional/', '_tuple/', '_utility/pair'])      # SIB: cv/ref-qualified overloads of one member agree
     _SB.positive_control(chk)
+    from ..rules import extra8 as _X8
+    if _X8.forward_move_area(chk, db, ['_functional/', '_tuple/', '_utility/']) < 20:      # FWDMOVE
+        chk.analysis_broken('FWDMOVE: fewer than 20 functions with a forwarding-reference parameter (floor 20)')
     from ..rules import initform as _IF
     _IF.check(chk, db, ['_tuple/', '_functional/', '_utility/'])      # INITFORM: forwarded packs direct-non-list-initialise
     if not db.by_q.get('etl::make_from_tuple'):
